@@ -174,6 +174,15 @@ def builtin_dispatch_check(res):
         ('select min(datetime.timedelta(int(a3))), max(datetime.timedelta(int(a3)))', [[datetime.timedelta(7), datetime.timedelta(10)]]),
     ]
     cases = [{'q': {'items': []}, 'A': A, 'B': None} for _ in checks]
+    # an EMPTY cell under the lower-case spellings (D28: the builtin sum('') is 0): every one of them is the aggregate, which refuses the cell at that record
+    empties = [('select sum(a1)', [['5'], [''], ['3']], 2), ('select sum(a1)', [[''], ['5']], 1), ('select min(a1)', [['5'], ['']], 2), ('select max(a1)', [['']], 1),
+               ('select a2, sum(a1) group by a2', [['', 'x'], ['', 'y']], 1), ('select sum(a1), max(a1)', [['1'], ['2'], ['']], 3)]
+    elines = [engine_corr.make_line({'q': {'items': []}, 'A': T, 'B': None}, lang_texts={'py': t, 'js': t}) for t, T, _n in empties]
+    for (t, T, n), o in zip(empties, [engine_corr.parse_out(x) for x in common.run_impl_py(elines)]):
+        res.evaluations += 1
+        if not (isinstance(o.get('err'), list) and o['err'][0] == 'runtime' and o['err'][1] == n):
+            res.violations.append({'property': 'C03', 'impl': 'py', 'why': 'an empty cell under a lower-case aggregate spelling must fail the aggregate at that record (as SUM / MIN / MAX do)', 'query_py': t, 'A': T,
+                                   'expected_error_at_record': n, 'impl_says': o, 'case_key': 'C03|dispatch-empty|%s|%s' % (t, json.dumps(T))})
     lines = [engine_corr.make_line(c, lang_texts={'py': t, 'js': t}) for c, (t, _e) in zip(cases, checks)]
     outs = [engine_corr.parse_out(o) for o in common.run_impl_py(lines)]
     res.evaluations += len(lines)
